@@ -397,7 +397,7 @@ func c11Streams(g *rng) {
 	}
 	for _, plen := range plens {
 		for _, d := range deltas {
-			spec, ok := specWithNP(npfbl+d, plen, plen+d+7)
+			spec, ok := specWithNP(npfbl+d, plen, plen+d+47)
 			if !ok {
 				continue
 			}
